@@ -368,6 +368,49 @@ func orderAndCopies(e *Env) {
 	for _, v := range verbs {
 		addHandlers(v)
 	}
+	if !c15 {
+		// one-shot handlers: removed while their (only) invocation is still at
+		// work - by the handler itself as its first act, or by another task that
+		// waits for it to start.  Being removed does not end the invocation: the
+		// next line must still wait for it, and so must DISCONNECTED
+		for _, v := range verbs {
+			if !g.Pct(25) {
+				continue
+			}
+			id := nh
+			nh++
+			byOther := g.Bool()
+			work := time.Duration(g.Range(1, 1500)) * time.Millisecond
+			var rm client.Remover
+			started, removed := false, false
+			e.S.Count("probe.handler-removed-while-its-invocation-runs")
+			rm = s.c.HandleFunc(mixCase(g, v), func(c *client.Conn, l *client.Line) {
+				r := &invRec{h: id, seq: seqOf(l), set: "fg"}
+				r.enter = e.S.Stamp()
+				invs = append(invs, r)
+				started = true
+				if byOther {
+					simrt.BlockFor("one-shot", "removal by another task", time.Minute, func() bool { return removed })
+				} else if !removed {
+					removed = true
+					rm.Remove()
+				}
+				for i := 0; i < 14; i++ {
+					simrt.Sleep(0)
+				}
+				simrt.Sleep(work)
+				r.exit = e.S.Stamp()
+			})
+			if byOther {
+				e.S.Spawn(fmt.Sprintf("remover%d", id), func() {
+					if simrt.BlockFor("remover", "the one-shot handler to start", 40*time.Hour, func() bool { return started }) {
+						rm.Remove()
+						removed = true
+					}
+				})
+			}
+		}
+	}
 	// lines with no parameters and no tags at all (":u!i@h.sim AWAY"), and the
 	// events the client raises itself, have nothing to copy but the Line: every
 	// invocation must still get a Line of its own
